@@ -17,7 +17,8 @@ RULE = ("statm records of seven page counts (0 .. 2^52) x page size {real, 4096,
         "THPeligible, ProtectionKey, VmFlags), values up to 2^45 kB; the roll-up computed from the same list (or deliberately "
         "kernel-rounded in Pss or inconsistent), old-kernel line sets (figures printed by no mapping), non-uniform line sets (model only), names with "
         "newlines (shown as \\012), present / ENOENT / ESRCH at open / ESRCH at read / EACCES, HAS_PROC_SMAPS_ROLLUP on/off; memory_percent for "
-        "every field name and unknown names with total memory cached or read; plus a malformed stream (dropped, duplicated, "
+        "every field name and unknown names with total memory cached or read; histories [virtual_memory / MemTotal rewritten / memory_percent] over a "
+        "fake /proc/meminfo; names containing \\r \\x0b \\x0c \\x1c-\\x1f \\x85 U+0085 U+2028/9; plus a malformed stream (dropped, duplicated, "
         "truncated, foreign lines, empty VmFlags, missing figures, file errors, zombie/gone). Non-trivial = at least one mapping "
         "or a non-empty file; distinct = distinct canonical case hash.")
 TRUSTED = ["correspondence harness props/C13.py + pv/ (fake /proc tree; builtins.open fault injection; os.stat oracle for "
@@ -54,6 +55,9 @@ PATHS = [b"/usr/lib/x86_64-linux-gnu/libc.so.6", b"/usr/bin/python3.12", b"[heap
          b"/tmp/caf\xc3\xa9", b"/tmp/\xff\xfe", b"/SYSV00000000", b"anon_inode:[io_uring]", b"/tmp/tab\there", b"/tmp/a (deleted) b",
          b"/tmp/x (deleted)", b"/tmp/two  blanks", b"/tmp/Swap:", b"/tmp/e\xe2\x80\x83m", b"/opt/VmFlags: rd", b"/a",
          b"/tmp/n\nl", b"/tmp/two\n\nlines\n", b"/tmp/back\\012slash", b"(unreachable)/x y"]
+# bytes at which bytes.splitlines() / str.splitlines() break but the kernel prints raw (it escapes only \n)
+BREAK_PATHS = [b"/srv/up/report\r2024.so", b"/tmp/cr\r", b"/tmp/crlf\r\nx", b"/tmp/vt\x0bx", b"/tmp/ff\x0cx y", b"/tmp/fs\x1cx", b"/tmp/gs\x1dx",
+               b"/tmp/rs\x1ex", b"/tmp/us\x1f", b"/tmp/raw\x85nel", b"/tmp/nel\xc2\x85x", b"/tmp/ls\xe2\x80\xa8ps\xe2\x80\xa9x", b"/tmp/a\rb\x0bc\x0cd\x1ce\x85f"]
 EDGE_PATHS = [b"/tmp/trail ", b"/tmp/trail\t", b"/tmp/nbsp\xc2\xa0", b"/tmp/fs\x1c", b"/tmp/em\xe2\x80\x83", b"/tmp/nel\xc2\x85",
               b"/tmp/idsp\xe3\x80\x80", b"/tmp/two  ", b"/tmp/ogham\xe1\x9a\x80", b"/tmp/mmsp\xe2\x81\x9f", b"/tmp/ls\xe2\x80\xa8"]
 FLAGS = ["rd", "wr", "ex", "sh", "mr", "mw", "me", "ms", "gd", "pf", "dw", "lo", "io", "sr", "rr", "dc", "de", "ac", "nr", "ht", "sf", "nl", "ar", "wf", "dd", "sd", "mm", "hg", "nh", "mg", "um", "uw"]
@@ -143,6 +147,8 @@ def _mappings(rng, n, edge=False):
     if not full_profile and rng.random() < 0.2:     # an old kernel: these figures on no mapping
         profile["drop"] = rng.sample(["Anonymous", "Swap", "Referenced", "Pss", "Shared_Dirty"], rng.randint(1, 3))
     pool = rng.sample(PATHS, rng.randint(1, 6))
+    if rng.random() < 0.3:
+        pool = pool[:3] + rng.sample(BREAK_PATHS, rng.randint(1, 3))
     if edge:
         pool = pool[:2] + rng.sample(EDGE_PATHS, rng.randint(1, 3))
     jitter = rng.random() < 0.3
@@ -315,7 +321,7 @@ def gen_cases(rng, tier):
                 victim["lines"].remove(rng.choice(figs))
         c = {"kind": "maps", "ms": ms, "ex": _ex_for(rng, ms, amb)}
         paths = [m["path"] for m in ms]
-        c["cls"] = "trivial" if not ms else ("maps-nonuniform-lines" if not _uniform(ms) else "maps-newline-name" if any(b"\n" in bytes.fromhex(m["path"]) for m in ms) else
+        c["cls"] = "trivial" if not ms else ("maps-nonuniform-lines" if not _uniform(ms) else "maps-linebreak-bytes" if _break_class(ms) else "maps-newline-name" if any(b"\n" in bytes.fromhex(m["path"]) for m in ms) else
                                              "maps-old-kernel" if any(_missing(m) for m in ms) else "maps-identical-rows" if _twin_class(ms) else "maps-edge-blank" if _edge_class(c) else "maps-ambiguous-deleted" if amb else
                                              "maps-repeated-paths" if len(set(paths)) < len(paths) else "maps")
         cases.append(c)
@@ -353,6 +359,19 @@ def gen_cases(rng, tier):
         c = dict(base)
         c.update(memtype="rss", total=rng.choice([0, -5]), cached=False, cls="percent-nonpositive-total")
         cases.append(c)
+    # the denominator over time: virtual_memory() calls, MemTotal changes, memory_percent calls in one interpreter
+    for j in range(max(6, n // 3)):
+        base = _full_case(rng, "percent")
+        t = rng.choice([8 * 2 ** 20, 2 ** 20, 16 * 2 ** 20 + 4, 3 * 2 ** 30])      # kB
+        ops = [["pct", rng.choice(PFULL)]] if rng.random() < 0.3 else []
+        for _ in range(rng.choice([2, 2, 3])):
+            t2 = max(1, rng.choice([t * 2, t // 2, t + 4, t - 4, t * 3 // 4]))
+            ops += ([["vm"]] if rng.random() < 0.8 else []) + [["set", t2]] + ([["vm"]] if rng.random() < 0.7 else [])
+            ops += [["pct", rng.choice(PFULL + ["bogus"])] for _ in range(rng.choice([1, 1, 2]))]
+        if j == 0:
+            ops = [["vm"], ["set", t // 2], ["vm"], ["pct", "rss"], ["set", t * 4], ["vm"], ["pct", "pss"], ["pct", "vms"]]
+        cases.append({"kind": "percent_hist", "cls": "percent-history", "pagesize": base["pagesize"], "ex": base["ex"], "ms": base["ms"],
+                      "statm": base["statm"], "total0": t, "ops": ops})
     # the name is validated first: unknown name x unreadable files / vanished process / zombie
     ok_statm, ok_smaps = b"10 20 30 40 0 50 0\n".hex(), _text_smaps(_mappings(rng, 1)).hex()
     states = [(0, "eacces", "eacces", "eacces"), (0, "ok", "eacces", "ok"), (2, "enoent", "enoent", "enoent"), (0, "enoent", "enoent", "ok"),
@@ -364,6 +383,13 @@ def gen_cases(rng, tier):
                           "smode": smode, "smaps": ok_smaps, "tmode": tmode, "statm": ok_statm, "memtype": nm,
                           "total": 8 * 2 ** 30, "cached": rng.random() < 0.5})
     return cases
+
+
+_BREAKS = [b"\r", b"\x0b", b"\x0c", b"\x1c", b"\x1d", b"\x1e", b"\x85", b"\xe2\x80\xa8", b"\xe2\x80\xa9"]
+
+
+def _break_class(ms):
+    return any(any(b in bytes.fromhex(m["path"]) for b in _BREAKS) for m in ms)
 
 
 def _figset(m):
@@ -474,6 +500,12 @@ def coq_term(case):
         return "run_maps %s %s" % (_g_ex(case["ex"]), G.lst([_g_mapping(m) for m in case["ms"]]))
     if k == "maps_raw":
         return "run_maps_raw %s %s %s %s" % (G.z(case["ps"]), _g_ex(case["ex"]), G.z(RMODE_NUM[case["mode"]]), _hx(case["content"]))
+    if k == "percent_hist":
+        ops = []
+        for o in case["ops"]:
+            ops.append("HVM" if o[0] == "vm" else "(HSet %s)" % G.z(o[1] * 1024) if o[0] == "set" else "(HPct %s)" % G.by(o[1]))
+        return "run_percent_hist %s %s %s %s %s %s" % (G.z(case["pagesize"]), _g_ex(case["ex"]), G.lst([_g_mapping(m) for m in case["ms"]]),
+                                                      _g_statm(case["statm"]), G.z(case["total0"] * 1024), G.lst(ops))
     if k == "percent_raw":
         return "run_percent_raw %s %s %s %s %s %s %s %s %s %s %s" % (
             G.z(case["ps"]), G.z(case["pagesize"]), G.bo(case["has_rollup"]), G.z(RMODE_NUM[case["rmode"]]), _hx(case["rollup"]),
@@ -523,6 +555,8 @@ def coq_struct(case, raw):
         return {"model": [raw[0], raw[1]], "spec": None}
     if k == "percent_raw":
         return {"model": raw[0], "spec": raw[1]}
+    if k == "percent_hist":
+        return {"printed": raw[:2], "model": raw[2], "spec": raw[3]}
     raise ValueError(k)
 
 
@@ -566,6 +600,14 @@ def judge(case, coq, impl):
         if impl != model:
             return Verdict("corr", "impl != model")
         return Verdict("ok")
+    if k == "percent_hist":
+        spec, model = coq["spec"], coq["model"]
+        same = lambda a, b: isinstance(a, list) and isinstance(b, list) and len(a) == len(b) and all(_ratio_close(x, y) for x, y in zip(a, b))
+        if spec is not None and not same(impl, spec):
+            return Verdict("violation", "memory_percent does not divide by the total reported by the last virtual_memory() call")
+        if not same(impl, model):
+            return Verdict("corr", "impl != model")
+        return Verdict("ok")
     if k in ("percent", "percent_raw"):
         spec, model = coq["spec"], coq["model"]
         if spec is not None and not _ratio_close(impl, spec):
@@ -577,6 +619,13 @@ def judge(case, coq, impl):
 
 
 # ------------------------------------------------------------------ implementation side
+MEMINFO = (b"MemTotal:       %d kB\nMemFree:          100 kB\nMemAvailable:     200 kB\nBuffers:           10 kB\nCached:            20 kB\n"
+           b"SwapCached:         0 kB\nActive:            30 kB\nInactive:          40 kB\nActive(anon):      10 kB\nInactive(anon):    10 kB\n"
+           b"Active(file):      20 kB\nInactive(file):    30 kB\nUnevictable:        0 kB\nMlocked:            0 kB\nSwapTotal:          0 kB\n"
+           b"SwapFree:           0 kB\nDirty:              0 kB\nWriteback:          0 kB\nAnonPages:         20 kB\nMapped:            10 kB\n"
+           b"Shmem:              4 kB\nKReclaimable:       8 kB\nSlab:              16 kB\nSReclaimable:       8 kB\nSUnreclaim:         8 kB\n")
+
+
 class _Raiser:
     """a file that fails when read (ESRCH at read time, as smaps_rollup does)"""
 
@@ -684,6 +733,10 @@ def impl_run(case, coq, env):
         files["smaps"] = (case["smode"], bytes.fromhex(case["smaps"]))
         files["smaps_rollup"] = (case["rmode"], bytes.fromhex(case["rollup"]))
         files["statm"] = (case["tmode"], bytes.fromhex(case["statm"]))
+    elif k == "percent_hist":
+        files["smaps"] = ("ok", unB(coq["printed"][0]))
+        files["smaps_rollup"] = ("enoent", b"")
+        files["statm"] = ("ok", unB(coq["printed"][1]))
     elif k == "maps":
         files["smaps"] = ("ok", unB(coq["printed"]))
     elif k == "maps_raw":
@@ -733,6 +786,29 @@ def impl_run(case, coq, env):
         if k in ("maps", "maps_raw"):
             return [outcome(lambda: p.memory_maps(grouped=False), _rows_conv),
                     outcome(lambda: p.memory_maps(grouped=True), _grouped_conv)]
+        if k == "percent_hist":
+            # a fresh interpreter: nothing cached yet; the REAL psutil.virtual_memory() over the fake /proc/meminfo
+            psutil._TOTAL_PHYMEM = None
+            _pslinux.HAS_PROC_SMAPS_ROLLUP = False
+            meminfo = os.path.join(root, "meminfo")
+
+            def set_total(kb):
+                with real_open(meminfo, "wb") as f:
+                    f.write(MEMINFO % kb)
+
+            def conv(x):
+                fr = Fraction(x)
+                return [fr.numerator, fr.denominator]
+            set_total(case["total0"])
+            out = []
+            for o in case["ops"]:
+                if o[0] == "vm":
+                    psutil.virtual_memory()
+                elif o[0] == "set":
+                    set_total(o[1])
+                else:
+                    out.append(outcome(lambda: p.memory_percent(o[1]), conv))
+            return out
         if k in ("percent", "percent_raw"):
             total = case["total"]
             class _VM:
@@ -757,7 +833,7 @@ def impl_run(case, coq, env):
 
 
 MANIFEST = {
-    "text": "Theorems (Coq, 25, no axioms): for every statm record memory_info is the seven page counts times the page size as pmem(rss, vms, shared, text, lib, "
+    "text": "Theorems (Coq, 27, no axioms): for every statm record memory_info is the seven page counts times the page size as pmem(rss, vms, shared, text, lib, "
             "data, dirty); the four namedtuple layouts of the code (dumped into coq/Gen/C13_Tables.v on every run) are the documented ones used by model "
             "and spec; for every kernel-formatted smaps listing (any number of mappings, any line set incl. all non-figure lines with arbitrary values, "
             "any path bytes) uss/pss/swap are the sums of the private/proportional/swapped kB over all mappings x 1024; a roll-up whose lines are the "
@@ -766,7 +842,8 @@ MANIFEST = {
             "shows it ('[anon]' if none, ' (deleted)' marker removed, newline as \\012) and ten figures for every listing whose line set is the same "
             "on every mapping (the never-cleared dict is refuted by a witness otherwise); the grouped view has one row per distinct path, each "
             "field the sum over that path's mappings; memory_percent is 100*field/total for exactly the ten field names and ValueError for every "
-            "other name (attribute-like names included) whatever the process state. The path decoding used before commit c15178c is kept as "
+            "other name (attribute-like names included) whatever the process state, and over every history of virtual_memory() calls and MemTotal changes "
+            "the denominator is the total reported by the last virtual_memory() call. The path decoding used before commit c15178c is kept as "
             "clean_path_legacy and refuted by a witness. The model is tied to the code by running both on generated kernel files and on a "
             "malformed stream through the public API over a fake /proc.",
     "note": "Trusted: Coq kernel + vm_compute; hand-written model coq/C13/Model.v incl. the three regex scanners (tied by the correspondence run only); "
